@@ -60,3 +60,18 @@ Theorem C04_nuc_mentions_sound : forall ref que gs,
   forall p, In p (flat_map snd out) -> ((1 <= p <= length (filter nongap ref))%nat /\ dis ref que (ref_to_msa ref) p = true).
 Proof. exact nuc_mentions_sound. Qed.
 Print Assumptions C04_nuc_mentions_sound.
+
+(* none is dropped through the sort and the duplicate removal either: every reference position whose symbols test
+   disjoint is mentioned by the final list - under the stated side condition that no two aa: records of the sorted list
+   are equal (records of one feature differ in their residue number, so this holds whenever feature names are distinct) *)
+Theorem C04_nuc_mentions_complete : forall ref que gs,
+  (forall g p, In g gs -> In p (g_pos g) -> (1 <= p <= length (filter nongap ref))%nat) ->
+  (forall g, In g gs -> (length (g_pos g) mod 3 = 0)%nat) ->
+  forall out aas, all_aas ref que (ref_to_msa ref) gs = Ok aas ->
+  variants_pair_traced ref que gs (inter_of gs (length (filter nongap ref))) = Ok out ->
+  aa_uniq (ssort (variant * list nat) t_lt
+             (map (fun i => (mk_indel i, [])) (Indels.get_indels (cols_of_rows ref que)) ++
+              map trace_nuc (get_nucs ref que (ref_to_msa ref) (inter_of gs (length (filter nongap ref)))) ++ aas)) ->
+  forall p, (1 <= p <= length (filter nongap ref))%nat -> dis ref que (ref_to_msa ref) p = true -> In p (flat_map snd out).
+Proof. exact nuc_mentions_complete. Qed.
+Print Assumptions C04_nuc_mentions_complete.
